@@ -1141,3 +1141,112 @@ def rule_measure_indices(ctx: Ctx) -> None:
             ctx.fail("measure.indices", m, node, f"z_measurement_gate: {why}", func="z_measurement_gate", construct=f"z_measurement_gate: {why[:70]}")
     else:
         ctx.ok("measure.indices", m, fn, what=f"{n_ok} index expressions of the measurement agree with the Aaronson-Gottesman layout")
+
+
+# --------------------------------------------------------------------------- insert.layout
+
+
+def rule_insert_layout(ctx: Ctx) -> None:
+    """insert.layout: insert_qubit adds an unentangled |0> at `new_position`: each of the four n x n blocks (destabilizer x / z, stabilizer
+    x / z) receives a zero column (length n) and then a zero row (length n + 1) at that position; the sign and i-phase vectors receive a
+    0 at positions p and n + p (both counted in the old 2n-vector); the blocks are re-assembled as [[dx, dz], [sx, sz]]; finally the
+    new destabilizer is X_p and the new stabilizer is Z_p (the 1 goes into destabilizer_x[p, p] and stabilizer_z[p, p])."""
+    repo = ctx.repo
+    m = repo.module(CLIFF)
+    fn = repo.anchor(CLIFF, "insert_qubit")
+    ctx.touch(m, fn)
+    TB, P = func_params(fn)[:2]
+    defs = {a.targets[0].id: a.value for a in fn.body if isinstance(a, ast.Assign) and len(a.targets) == 1 and isinstance(a.targets[0], ast.Name)}
+    N = next((k for k, v in defs.items() if norm(v) == f"{TB}.n_qubits"), None)
+    if N is None:
+        raise AnalysisError("insert_qubit: n_qubits local not found")
+    bad: List[str] = []
+
+    def L(e):
+        return linear.clean(linear.lin(e) or {"?": 1})
+
+    def zeros_len(e):
+        for _ in range(2):
+            if isinstance(e, ast.Name) and e.id in defs:
+                e = defs[e.id]
+        if isinstance(e, ast.Call) and call_name(e) in ("np.zeros",) and e.args:
+            return L(e.args[0])
+        if isinstance(e, ast.Constant) and e.value == 0:
+            return "scalar0"
+        return None
+    ins = [a for a in fn.body if isinstance(a, ast.Assign) and isinstance(a.value, ast.Call) and call_name(a.value) == "np.insert"]
+    blocks = {}
+    for a in ins:
+        c = a.value
+        if len(c.args) < 3:
+            bad.append(f"`{short(a)}`: np.insert(array, position, values, axis) expected")
+            continue
+        ax = get_kw(c, "axis")
+        src = norm(c.args[0])
+        tgt = norm(a.targets[0])
+        if ax is None:
+            # the two phase vectors
+            if src in (f"{TB}.phase", f"{TB}.iphase"):
+                pos = c.args[1]
+                okp = isinstance(pos, (ast.List, ast.Tuple)) and len(pos.elts) == 2 and L(pos.elts[0]) == {P: 1} and L(pos.elts[1]) == {P: 1, N: 1}
+                if not okp:
+                    bad.append(f"`{short(a)}`: the new sign entries belong at positions {P} and {N} + {P} of the old vector")
+                if zeros_len(c.args[2]) != "scalar0":
+                    bad.append(f"`{short(a)}`: the inserted sign must be 0")
+                blocks[src.split(".")[-1]] = tgt
+            else:
+                bad.append(f"`{short(a)}`: insertion without axis into something that is not a phase vector")
+            continue
+        if L(c.args[1]) != {P: 1}:
+            bad.append(f"`{short(a)}`: the insertion position must be {P}")
+        axis = ax.value if isinstance(ax, ast.Constant) else None
+        zl = zeros_len(c.args[2])
+        if axis == 1:
+            if zl != {N: 1}:
+                bad.append(f"`{short(a)}`: the new column has {N} zero entries")
+            if not src.startswith(f"{TB}."):
+                bad.append(f"`{short(a)}`: the column goes into a block of the tableau first")
+            blocks.setdefault(tgt, {})["block"] = src.split(".")[-1]
+            blocks[tgt]["col"] = True
+        elif axis == 0:
+            if zl != {N: 1, "": 1}:
+                bad.append(f"`{short(a)}`: the new row has {N} + 1 zero entries (the column was added before)")
+            if src != tgt or not blocks.get(tgt, {}).get("col"):
+                bad.append(f"`{short(a)}`: the row is inserted into the block that already received its column")
+            else:
+                blocks[tgt]["row"] = True
+        else:
+            bad.append(f"`{short(a)}`: axis must be 0 or 1")
+    done = {v["block"]: k for k, v in blocks.items() if isinstance(v, dict) and v.get("col") and v.get("row")}
+    for b in ("destabilizer_x", "destabilizer_z", "stabilizer_x", "stabilizer_z"):
+        if b not in done:
+            bad.append(f"block {b} does not receive both a zero column and a zero row")
+    blk = [c for c in calls_in(fn) if call_name(c) == "np.block" and c.args and isinstance(c.args[0], ast.List)]
+    if len(blk) == 1 and len(blk[0].args[0].elts) == 2 and all(isinstance(r, ast.List) and len(r.elts) == 2 for r in blk[0].args[0].elts):
+        got = [[norm(x) for x in r.elts] for r in blk[0].args[0].elts]
+        want = [[done.get("destabilizer_x"), done.get("destabilizer_z")], [done.get("stabilizer_x"), done.get("stabilizer_z")]]
+        if got != want:
+            bad.append(f"the new table is assembled as {got}; the layout is [[destabilizer x, destabilizer z], [stabilizer x, stabilizer z]]")
+    else:
+        bad.append("the new table is not assembled with np.block([[dx, dz], [sx, sz]])")
+    ones = [a for a in fn.body if isinstance(a, ast.Assign) and isinstance(a.targets[0], ast.Subscript) and isinstance(a.value, ast.Constant) and a.value.value == 1]
+    where = {}
+    for a in ones:
+        t = a.targets[0]
+        if isinstance(t.slice, ast.Tuple) and len(t.slice.elts) == 2 and L(t.slice.elts[0]) == {P: 1} and L(t.slice.elts[1]) == {P: 1}:
+            where[norm(t.value).split(".")[-1]] = a
+        else:
+            bad.append(f"`{short(a)}`: the 1 of the new qubit sits at [{P}, {P}] of its block")
+    if set(where) != {"destabilizer_x", "stabilizer_z"}:
+        bad.append(f"the new qubit is set through {sorted(where)}; |0> has destabilizer X (destabilizer_x[p, p] = 1) and stabilizer Z (stabilizer_z[p, p] = 1)")
+    exp = [c for c in calls_in(fn) if call_attr(c) == "expand"]
+    if exp and ones and not all(a.lineno > exp[0].lineno for a in ones):
+        bad.append("the 1s of the new qubit are written before the tableau is expanded")
+    if exp and len(exp[0].args) == 3:
+        if [norm(x) for x in exp[0].args[1:]] != [blocks.get("phase"), blocks.get("iphase")]:
+            bad.append(f"`{short(exp[0])}`: expand(table, phase, iphase) receives the vectors in the wrong order")
+    if bad:
+        for why in dict.fromkeys(bad):
+            ctx.fail("insert.layout", m, fn, f"insert_qubit: {why}", func="insert_qubit", construct=f"insert_qubit: {why[:70]}")
+    else:
+        ctx.ok("insert.layout", m, fn, what="4 blocks x (column, row), 2 vectors, block assembly, X_p / Z_p")
